@@ -19,6 +19,7 @@ sys.path.insert(0, os.path.dirname(os.path.abspath(__file__)))
 import ext      # noqa: E402
 import gen      # noqa: E402
 import coqenc   # noqa: E402
+import gfort    # noqa: E402
 from vlib import core, minifort as mf   # noqa: E402
 
 HERE = os.path.dirname(os.path.abspath(__file__))
@@ -164,6 +165,70 @@ def apply_impl(case):
     return res
 
 
+# ------------------------------------------------------------------ which repairs does this tree contain?
+FX = {"shortcut": False, "stride": False, "redstore": False, "nodeindex": False}
+
+
+def probe_fixes(ctx=None):
+    """Dynamic translator: run the implementation on four canonical statements and recognise, from the SHAPE of
+    the output, whether each repair of props/C06/fix.patch is present (flags of coq/C06/Model.v `fixes`).
+    An unrecognised shape leaves the flag False; the correspondence run then reports the disagreement."""
+    L, V = gen.L, gen.V
+    base = [("x", "real", []), ("y", "real", []), ("z", "real", []), ("n", "integer", []), ("m", "integer", []),
+            ("k", "integer", [])]
+
+    def mk(kind, arrays, stmt, pick=0):
+        return {"kind": kind, "pick": pick, "stream": "probe", "stmts": [stmt],
+                "decls": base + [(a, "real", bs) for a, bs in sorted(arrays.items())], "arrays": arrays}
+
+    def rg(lo, hi, st=1):
+        return ("rng", L(lo), L(hi), L(st))
+    A = {"a": [(1, 10)], "b": [(1, 10)]}
+    D = {"d": [(0, 4), (1, 5)]}
+    seen = {}
+    # (1) same_range shortcut: d(:,1) = d(1,:)
+    r = apply_impl(mk("arrassign", D, ("assign", "d", [("rng", gen.lb_of("d", 1), gen.ub_of("d", 1), L(1)), L(1)],
+                                     ("idx", "d", [L(1), ("rng", gen.lb_of("d", 2), gen.ub_of("d", 2), L(1))]))))
+    try:
+        x = r["out"][0][5][0][3][2][1]
+        seen["shortcut"] = {repr(("var", "idx")): False,
+                            repr(("bin", "Add", ("var", "idx"), ("bin", "Sub", gen.lb_of("d", 2), gen.lb_of("d", 1)))): True
+                            }.get(repr(x))
+    except (KeyError, IndexError, TypeError):
+        seen["shortcut"] = None
+    # (2) strides: a(1:9:2) = b(1:5)
+    r = apply_impl(mk("arrassign", A, ("assign", "a", [rg(1, 9, 2)], ("idx", "b", [rg(1, 5)]))))
+    try:
+        x = r["out"][0][5][0][3][2][0]
+        seen["stride"] = {repr(("bin", "Add", ("var", "idx"), ("bin", "Sub", L(1), L(1)))): False,
+                          repr(("bin", "Add", L(1), ("bin", "Mul", ("bin", "Div", ("bin", "Sub", ("var", "idx"), L(1)), L(2)),
+                                                     L(1)))): True}.get(repr(x))
+    except (KeyError, IndexError, TypeError):
+        seen["stride"] = None
+    # (3) a(1) = SUM(a)
+    r = apply_impl(mk("sum", A, ("assign", "a", [L(1)], ("red", "Sum", V("a"), None, None))))
+    try:
+        out = r["out"]
+        seen["redstore"] = False if len(out) == 2 else \
+            True if len(out) == 3 and out[2] == ("assign", "a", [L(1)], ("var", "tmp_var")) else None
+    except (KeyError, IndexError, TypeError):
+        seen["redstore"] = None
+    # (4) x = SUM(a) - SUM(b), second call
+    r = apply_impl(mk("sum", A, ("assign", "x", [], ("bin", "Sub", ("red", "Sum", V("a"), None, None),
+                                                      ("red", "Sum", V("b"), None, None))), pick=1))
+    try:
+        last = r["out"][-1][3]
+        seen["nodeindex"] = {repr(("bin", "Sub", ("var", "x"), ("red", "Sum", V("b"), None, None))): False,
+                             repr(("bin", "Sub", ("red", "Sum", V("a"), None, None), ("var", "x"))): True}.get(repr(last))
+    except (KeyError, IndexError, TypeError):
+        seen["nodeindex"] = None
+    for k, v in seen.items():
+        FX[k] = bool(v)
+    if ctx is not None:
+        ctx.notes["model_variant_probe"] = {k: ("unrecognised" if v is None else v) for k, v in seen.items()}
+    return seen
+
+
 # ------------------------------------------------------------------ evaluating the property
 def compare(case, orig, out, new_names, stores):
     """-> None or dict(describing the first store on which original and transformed differ)"""
@@ -257,14 +322,16 @@ def section_reasons(lhs_name, lhs_ix, exprs, arrays, lhs_is_written=True):
         for acc in top_accessors(e):
             rr = [(i, x) for i, x in enumerate(acc[2]) if x[0] == "rng"]
             for (li, lx), (ri, rx) in zip(lr, rr):
-                if norm_e(rx[3]) != norm_e(lx[3]):
+                step_differs = norm_e(rx[3]) != norm_e(lx[3])
+                if step_differs and not FX["stride"]:
                     reasons.add("range-step-differs")
                 if acc[1] == lhs_name:
-                    if ri != li:
+                    if ri != li and not FX["shortcut"]:
                         reasons.add("same-array-other-dimension")
-                    elif norm_start(lhs_name, li + 1, lx[1], arrays) != norm_start(lhs_name, ri + 1, rx[1], arrays):
-                        if lhs_is_written:
-                            reasons.add("lhs-array-read-at-other-offset")
+                    if lhs_is_written and (ri != li or step_differs or
+                                           norm_start(lhs_name, li + 1, lx[1], arrays) !=
+                                           norm_start(lhs_name, ri + 1, rx[1], arrays)):
+                        reasons.add("lhs-array-read-at-other-offset")
             if lhs_is_written and acc[1] == lhs_name and not rr:
                 reasons.add("lhs-array-element-read")
             if lhs_is_written:
@@ -319,9 +386,9 @@ def classify(case, orig):
         st = find_stmt(orig, lambda s: any(x[0] == "red" and x[1] == K for x in ext.subexprs(s[3])))
         reds = [x for x in ext.subexprs(st[3]) if x[0] == "red" and x[1] == K]
         target = reds[case.get("pick", 0)]
-        if case.get("pick", 0) != 0:
+        if case.get("pick", 0) != 0 and not FX["nodeindex"]:
             reasons.add("other-same-kind-intrinsic-replaced")
-        if st[3] == target and (mentions(target, st[1])):
+        if st[3] == target and (mentions(target, st[1])) and not FX["redstore"]:
             reasons.add("increment-result-dropped")
         arr = expand_whole(target[2], arrays)
         mask = expand_whole(target[4], arrays) if target[4] is not None else None
@@ -347,9 +414,9 @@ def classify(case, orig):
 
 
 # ------------------------------------------------------------------ case generation
-KINDS_Q = [("arrassign", 230), ("ref2range", 20), ("ref2range+loops", 20), ("access2loop", 25), ("allaccess2loop", 25),
-           ("abs", 35), ("sign", 35), ("min", 35), ("max", 35), ("dot", 50), ("matmul", 60),
-           ("sum", 70), ("product", 45), ("minval", 50), ("maxval", 50)]
+KINDS_Q = [("arrassign", 110), ("ref2range", 8), ("ref2range+loops", 10), ("access2loop", 10), ("allaccess2loop", 10),
+           ("abs", 14), ("sign", 14), ("min", 16), ("max", 16), ("dot", 22), ("matmul", 28),
+           ("sum", 34), ("product", 20), ("minval", 24), ("maxval", 24)]
 
 
 def make_case(kind, rng):
@@ -378,7 +445,7 @@ def make_case(kind, rng):
         st = g.matmul_stmt()
     else:
         K = kind.capitalize()
-        with_dim = rng.random() < 0.12
+        with_dim = rng.random() < 0.15
         st = g.reduction_stmt(K, with_dim)
         n = sum(1 for x in ext.subexprs(st[3]) if x[0] == "red" and x[1] == K)
         case["pick"] = rng.randrange(n) if rng.random() < 0.6 else 0
@@ -464,7 +531,10 @@ def run(ctx):
     ok, rep = ctx.prove()
     ctx.log("proof ok=%s discharged=%d/%d" % (ok, ctx.cov["discharged"], ctx.cov["obligations"]))
 
+    probe_fixes(ctx)
+    ctx.log("repairs present in the tree under test: %s" % ctx.notes["model_variant_probe"])
     failures = []        # (key, case, res, bad)
+    unserialisable = []  # accepted, but the output tree is outside the serialiser's subset (fail-closed)
     corr_cases = []      # (case, res) accepted cases for the Coq correspondence
     plain_progs = []
     # ---- 1. replay the witnesses of the known findings (every run)
@@ -483,11 +553,13 @@ def run(ctx):
             key = "%s/%s" % (SITE[case["kind"]], classify(case, res["orig"]))
             failures.append((key, case, res, bad))
     # ---- 2. generated cases
-    scale = ctx.pick(1, 12)
+    scale = ctx.pick(1, 8)
     nstores = ctx.pick(3, 4)
     rng = ctx.rng("gen")
     srng = ctx.rng("stores")
     n_rt_bad = 0
+    want_gf = ctx.pick(0, 150) if not os.environ.get("C06_GFORTRAN") else 40
+    gf_items = []
     for kind, n in KINDS_Q:
         for i in range(n * scale):
             case = make_case(kind, rng)
@@ -511,6 +583,8 @@ def run(ctx):
                     ctx.hist("crash:" + kind, res["msg"][:70])
                 else:
                     ctx.hist("out_of_subset", res["msg"][:70])
+                    if not case["stream"].startswith("malformed"):
+                        unserialisable.append((case, res))
                 continue
             case["orig"] = res["orig"]
             stores = valid_stores(case, case["_gen"], srng, nstores)
@@ -527,6 +601,9 @@ def run(ctx):
             if ext.is_plain(res["out"], case["arrays"]) and len(plain_progs) < ctx.pick(60, 400):
                 plain_progs.append((res["out"], stores[0], case["arrays"]))
             corr_cases.append((case, res))
+            if want_gf and len(gf_items) < want_gf and (i % 3 == 0 or bad):
+                gf_items.append((case, res, stores[0],
+                                 compare(case, res["orig"], res["out"], res["new_names"], [stores[0]]) is not None))
             if bad:
                 reason = classify(case, res["orig"])
                 key = "%s/%s" % (SITE[kind], reason)
@@ -537,6 +614,7 @@ def run(ctx):
             if len(ctx.cov["samples"]) < 6 and i == 0:
                 ctx.sample({"kind": kind, "fortran": res["text"].split("\n")[-3:-1],
                             "transformed": ext.stmts_to_fortran(res["out"])})
+    ctx.log("generated cases evaluated")
     # ---- 3. glue self-check: extended interpreter == vlib.minifort.interp on plain transformed programs
     n_glue = 0
     for prog, vals, bnds in plain_progs:
@@ -551,8 +629,12 @@ def run(ctx):
             if n_glue <= 2:
                 ctx.violation({"glue": "ext.interp != vlib.minifort.interp", "program": prog}, no_input=True)
     ctx.notes["glue_plain_programs_checked"] = len(plain_progs)
+    gf_problems = gfort.crosscheck(ctx, gf_items) if gf_items else []
+    for pr in gf_problems[:2]:
+        ctx.violation(dict(pr, glue="gfortran cross-check"), no_input=True)
+    ctx.log("glue self-checks done (gfortran cross-check: %s)" % ctx.notes.get("gfortran_crosscheck", "not run in this tier"))
     # ---- 4. correspondence with the Coq model
-    n_corr, corr_bad = coqenc.correspondence(ctx, corr_cases)
+    n_corr, corr_bad = coqenc.correspondence(ctx, corr_cases, FX)
     ctx.cov["disagreements_checked"] = len(corr_bad)
     ctx.notes["model_correspondence_cases"] = n_corr
     ctx.log("accepted cases=%d  property failures=%d  model cases=%d  model/impl disagreements=%d"
@@ -567,6 +649,12 @@ def run(ctx):
         if ctx.finding(key, "%s: accepted, transformed code computes different values" % key,
                        case_json(case, res, bad)):
             n_viol += 1
+    if unserialisable and not n_viol:
+        c, r = unserialisable[0]
+        ctx.violation({"property": "C06", "broken": "the transformation's output can no longer be serialised (node kinds "
+                       "outside props/C06/ext.py): the accepted case cannot be evaluated", "why": r.get("msg"),
+                       "n_cases": len(unserialisable), "first_case": case_json(c, r)}, no_input=True)
+        n_viol += 1
     if not n_viol and (corr_bad or not ok):
         first = None
         if corr_bad:
